@@ -12,6 +12,7 @@ mod jsonproto;
 mod c15;
 mod c07;
 mod c11;
+mod c18;
 
 use ctx::{Ctx, Tier};
 
@@ -70,6 +71,7 @@ fn main() {
         "C15" => c15::run(&mut ctx),
         "C07" => c07::run(&mut ctx),
         "C11" => c11::run(&mut ctx),
+        "C18" => c18::run(&mut ctx),
         _ => {
             eprintln!("unknown property {}", prop);
             std::process::exit(2);
